@@ -5,6 +5,8 @@ OUT=$(mktemp /tmp/verif.baseline.XXXXXX.json)
 trap 'rm -f $OUT' EXIT
 cd /repo
 go test -mod=mod -json -vet=off -count=1 -timeout 25m ./... > $OUT 2>/dev/null
+# TestInitPleasings appends to this tracked file; put it back so the working tree stays as committed.
+git -C /repo checkout -- src/plzinit/BUILD 2>/dev/null
 python3 - "$OUT" <<'PY'
 import json,sys
 passed=set()
